@@ -161,4 +161,21 @@ EncLiteralsGrow(xs, early) ==
       C(i) == IF i > Len(xs) THEN << <<Eod, WidthFor(257 + Len(xs), early)>> >>
               ELSE << <<xs[i], WidthFor(256 + i, early)>> >> \o C(i + 1)
   IN PackCodes(<< <<Clear, 9>> >> \o C(1))
+\* an encoder that defers the clear code: literals only until the decoder's
+\* table is full (Len(xs) >= 3845), then reps times the last table entry the
+\* encoder allows itself (4095, or 4094 with EarlyChange = 1: a full table stays
+\* frozen and every code keeps its meaning), then the clear code and a tail of
+\* literals.  DeferredData is the data that stream stands for.
+TopCode(early) == 4095 - early
+EncDeferredClear(xs, early, reps, tail) ==
+  PackCodes(<< <<Clear, 9>> >>
+            \o [i \in 1..Len(xs) |-> <<xs[i], WidthFor(256 + i, early)>>]
+            \o [i \in 1..reps |-> <<TopCode(early), 12>>]
+            \o << <<Clear, 12>> >>
+            \o [i \in 1..Len(tail) |-> <<tail[i], WidthFor(256 + i, early)>>]
+            \o << <<Eod, WidthFor(257 + Len(tail), early)>> >>)
+DeferredData(xs, early, reps, tail) ==
+  LET top == <<xs[TopCode(early) - 257], xs[TopCode(early) - 256]>>
+      RECURSIVE Rep(_) Rep(k) == IF k = 0 THEN <<>> ELSE top \o Rep(k - 1)
+  IN xs \o Rep(reps) \o tail
 =============================================================================
